@@ -1,0 +1,47 @@
+//! Verification instrumentation.
+//!
+//! Only compiled with `--cfg aranya_verif` (never in normal
+//! builds): a process-global *yield point* hook that the
+//! reference counting code calls immediately before every access
+//! to the shared count. Without an installed hook this is
+//! a no-op.
+
+#![cfg(aranya_verif)]
+#![allow(missing_docs)]
+
+use core::sync::atomic::{AtomicUsize, Ordering};
+
+/// Called before a shared memory access; `a` is the address of
+/// the shared allocation.
+pub type PointFn = fn(site: u32, a: usize, b: usize);
+
+static POINT: AtomicUsize = AtomicUsize::new(0);
+
+/// Installs (or removes) the yield point hook.
+pub fn set_point_hook(f: Option<PointFn>) {
+    POINT.store(f.map_or(0, |f| f as usize), Ordering::SeqCst);
+}
+
+/// A yield point.
+#[inline]
+pub fn point(site: u32, a: usize, b: usize) {
+    let f = POINT.load(Ordering::Relaxed);
+    if f != 0 {
+        // SAFETY: only `set_point_hook` writes to `POINT` and it
+        // only stores zero or a valid `PointFn`.
+        let f = unsafe { core::mem::transmute::<usize, PointFn>(f) };
+        f(site, a, b);
+    }
+}
+
+/// Yield point identifiers.
+pub mod site {
+    /// `ArcStr::clone`: `strong.fetch_add(1)`.
+    pub const ARC_FETCH_ADD: u32 = 64;
+    /// `ArcStr::drop`: `strong.fetch_sub(1)`.
+    pub const ARC_FETCH_SUB: u32 = 65;
+    /// `ArcStr::drop`: acquire fence (this was the last handle).
+    pub const ARC_FENCE: u32 = 66;
+    /// `ArcStr::drop`: about to free the allocation.
+    pub const ARC_DEALLOC: u32 = 67;
+}
